@@ -1,13 +1,28 @@
 /-
-  Certificate obligations, part 3 of 8 of the `patched` client system (kernel evaluation; one module per
-  part so that lake checks them in parallel). Assembled in `Lemmas/CliCert.lean`.
+  Certificate obligations, parts 24..31 of 64 of the `patched` client system (kernel evaluation; 8 modules
+  so that lake checks them in parallel; small parts keep the kernel's memory small).
+  Assembled in `Lemmas/CliCert.lean`.
 -/
 import KmipModel.Model.CliConn
 import KmipModel.Gen.CertCliConn
 namespace Kmip.CliCert
 open Kmip.CliLts Kmip.CliConn Kmip.Gen.CertCliConn
 
-theorem paClosed3 : partClosed (sys patched) codec certPatched paP3 = true := by decide +kernel
-theorem paSafe3 : partSafe codec (badFull patched) paP3 = true := by decide +kernel
+theorem paClosed24 : partClosed (sys patched) codec certPatched paP24 = true := by decide +kernel
+theorem paSafe24 : partSafe codec (badFull patched) paP24 = true := by decide +kernel
+theorem paClosed25 : partClosed (sys patched) codec certPatched paP25 = true := by decide +kernel
+theorem paSafe25 : partSafe codec (badFull patched) paP25 = true := by decide +kernel
+theorem paClosed26 : partClosed (sys patched) codec certPatched paP26 = true := by decide +kernel
+theorem paSafe26 : partSafe codec (badFull patched) paP26 = true := by decide +kernel
+theorem paClosed27 : partClosed (sys patched) codec certPatched paP27 = true := by decide +kernel
+theorem paSafe27 : partSafe codec (badFull patched) paP27 = true := by decide +kernel
+theorem paClosed28 : partClosed (sys patched) codec certPatched paP28 = true := by decide +kernel
+theorem paSafe28 : partSafe codec (badFull patched) paP28 = true := by decide +kernel
+theorem paClosed29 : partClosed (sys patched) codec certPatched paP29 = true := by decide +kernel
+theorem paSafe29 : partSafe codec (badFull patched) paP29 = true := by decide +kernel
+theorem paClosed30 : partClosed (sys patched) codec certPatched paP30 = true := by decide +kernel
+theorem paSafe30 : partSafe codec (badFull patched) paP30 = true := by decide +kernel
+theorem paClosed31 : partClosed (sys patched) codec certPatched paP31 = true := by decide +kernel
+theorem paSafe31 : partSafe codec (badFull patched) paP31 = true := by decide +kernel
 
 end Kmip.CliCert
